@@ -91,7 +91,7 @@ def value_pool(interp, model, name):
     if name == "line_delimiter":
         return [("lf", "\n"), ("CR", "\r"), ("CrLf", "\r\n"), ("any", "any"), ("none", "none-special"), ("foo", "invalid")]
     if name == "item_delimiter":
-        return [(";", ";"), ("|", "|"), ("a", "a")]
+        return [(";", ";"), ("|", "|"), ("a", "a"), ("59", ";"), ("0x3b", ";"), ("Tab", "\t"), ('";"', ";")]
     if name == "allowed_characters":
         return [("<range>", "range"), ("<broken range>", "invalid")]
     return [("x", "invalid")]
@@ -110,15 +110,38 @@ def set_property_cell(model, ch, mode="values"):
             interp_.raise_("cutplace.errors.InterfaceError", Opaque("str", True))
         return Obj(model.cls("cutplace.ranges.Range"), {"_description": args[0]}, label="allowed")
 
-    interp = Interp(model, ch, externals={"codecs.lookup": _codecs_lookup}, stubs={"cutplace.ranges.Range": range_stub})
+    def real_tokens(interp_, args, kwargs):
+        """tokenize.generate_tokens on the concrete text handed to _compat.token_io_readline."""
+        import io
+        import tokenize
+
+        source = args[0]
+        if not (isinstance(source, tuple) and len(source) == 2 and source[0] == "readline of" and isinstance(source[1], str)):
+            raise Undecided("generate_tokens(%r)" % (source,))
+        try:
+            return [tuple(item) for item in tokenize.generate_tokens(io.StringIO(source[1]).readline)]
+        except tokenize.TokenError as error:
+            interp_.raise_("tokenize.TokenError", str(error))
+        except SyntaxError as error:
+            interp_.raise_("builtins." + type(error).__name__, str(error))
+
+    interp = Interp(model, ch, externals={"codecs.lookup": _codecs_lookup, "tokenize.generate_tokens": real_tokens},
+                    stubs={"cutplace.ranges.Range": range_stub,
+                           "cutplace._compat.token_io_readline": stub(lambda i, a, k: ("readline of", a[0]))})
     data_format = _new_format(interp, model, format_name)
     pool = value_pool(interp, model, key)
     text, expected_value = ch.choose("value", pool)
+    # "surrounding blanks" are a meaning-preserving rewrite of a CID (C09): a valid value stays the same value
+    blanks = ch.choose("blanks around the value", ["none", "before", "after"]) \
+        if expected_value != "invalid" and not text.startswith("<") and text.strip() == text and text != "" else "none"
+    written = {"none": text, "before": "  " + text, "after": text + " "}[blanks]
+    if expected_value in ("utf-8", "cp1252"):
+        expected_value = "encoding " + expected_value
     from ..world import World
 
     location = World(model, interp, ch).location()
     try:
-        interp.call_function(model.func(DATA_FORMAT + ".set_property"), [data_format, name, text, location], {}, None)
+        interp.call_function(model.func(DATA_FORMAT + ".set_property"), [data_format, name, written, location], {}, None)
         outcome = "set"
     except AbsRaise as raised:
         outcome = "raise " + exc_name(raised.value)
@@ -126,7 +149,7 @@ def set_property_cell(model, ch, mode="values"):
             error_location = raised.value.attrs.get("_location")
             if not (isinstance(error_location, Obj) and getattr(error_location, "copied_from", None) is location):
                 outcome = "raise InterfaceError without the location of the property row"
-    cell_key = "format=%s property=%r value=%r" % (format_name, name, text)
+    cell_key = "format=%s property=%r value=%r" % (format_name, name, written)
     if mode == "errors":
         # C10: whatever name and value, the property is set or refused with InterfaceError - nothing else
         actual = outcome if not (outcome == "set" or outcome.startswith("raise InterfaceError")) else "set-or-InterfaceError"
@@ -147,6 +170,13 @@ def set_property_cell(model, ch, mode="values"):
     if expected_value == "range":
         ok = isinstance(actual, Obj) and actual.attrs.get("_description") == "<range>"
         return (cell_key, "set" if ok else ("set", repr(actual)), "set")
+    if isinstance(expected_value, str) and expected_value.startswith("encoding "):
+        # the name of the encoding may be kept as written; it has to denote the same codec
+        try:
+            same = isinstance(actual, str) and codecs.lookup(actual).name == codecs.lookup(expected_value[9:]).name
+        except LookupError:
+            same = False
+        return (cell_key, "set" if same else ("set", actual), "set")
     return (cell_key, ("set", actual), ("set", expected_value))
 
 
@@ -222,7 +252,8 @@ def rule_validated_character(ctx):
 
         @stub
         def tokens_stub(interp_, args, kwargs):
-            if args[0] is not value:
+            if args[0] is not value and args[0] is not stripped:
+                # the value or the value without its surrounding blanks: the same tokens but for an indentation
                 raise Undecided("tokenised %r instead of the value" % (args[0],))
             if first == "tokenizer-error":
                 interp_.raise_("tokenize.TokenError", "EOF in multi-line statement")
